@@ -1,5 +1,6 @@
 import Driver.Proto
 import MediaSan.Vp8l.Lossless
+import Driver.C06
 namespace Driver.C07
 open MediaSan MediaSan.Vp8l
 
@@ -34,7 +35,27 @@ def modelVerdict (kind : String) (data : Bytes) (w h : Nat) (cfg : LCfg) : Strin
         | .error e => lerrName e
       else "ok"
 
+/-- C08, container side: a whole file from libwebp's encoders / muxer -/
+def handleFile (prop : String) (kv : KV) : String :=
+  match Driver.Mp4.parseStream kv, kv.get? "impl", kv.get? "ref" with
+  | some s, some impl, some ref =>
+    let id := kv.getD "id" "?"
+    let m := Driver.C06.showOut (MediaSan.Webp.sanitize s .seekable {})
+    let names := Driver.C06.chunkNames s
+    -- the one known container-level refusal: VP8X with the alpha flag in front of a still lossless image
+    -- (libwebp's muxer sets the flag for VP8L images with alpha; there is no ALPH chunk)
+    let flags := (s.get 20).toNat
+    let alphaStillLossless := names.startsWith "VP8X" && flags / 16 % 2 == 1 && flags / 2 % 2 == 0 &&
+      (names.startsWith "VP8X+VP8L" || names.startsWith "VP8X+ICCP+VP8L")
+    if ref == "ok" && impl != "ok" then
+      let sg := if alphaStillLossless then "vp8x-alpha-flag-still-lossless-without-alph" else "other"
+      s!"SPEC {id} which=rejected-file-libwebp-produced-and-decodes sig={prop}:file:{sg} impl={impl} model={m} chunks={names}"
+    else if m != impl then s!"DIFF {id} model={m} impl={impl} sig={if alphaStillLossless then prop ++ ":file:vp8x-alpha-flag-still-lossless-without-alph" else ""}"
+    else s!"OK {id} tags=file,{if impl == "ok" then "accepted" else "rejected"},{names.take 40}"
+  | _, _, _ => "ERR ? missing-field"
+
 def handle (prop : String) (kv : KV) : String :=
+  if kv.get? "kind" == some "file" then handleFile prop kv else
   match kv.get? "kind", kv.hex? "data", kv.get? "impl", kv.get? "ref" with
   | some kind, some data, some impl, some ref =>
     let id := kv.getD "id" "?"
